@@ -110,6 +110,10 @@ example : ∃ s : IState, WF s ∧ s.code[s.pc]? = some 0x01 ∧ (⟨0x01, 3, 0,
   ⟨{ IState.init [0x60, 1, 0x60, 2, 0x01] [] 100000 false 17 0 0 0 {} with pc := 4, stack := [1, 2] },
    ⟨by decide, by decide, by decide⟩, by decide, by simp [wordTable, GasCalc.VERYLOW, GasCalc.SpecId.FRONTIER]⟩
 
+/-- EXP with its exponent-length gas (10 resp. 50 per byte from Spurious Dragon) and the `Spec.Arith` power -/
+theorem step_exp_agrees (s : IState) (hcode : s.code[s.pc]? = some 0x0a) (hwf : WF s) :
+    step s = .pure (expRule s) := Proofs.EvmStep.step_exp s hcode hwf
+
 theorem step_pop_agrees (s : IState) (hcode : s.code[s.pc]? = some 0x50) (hwf : WF s) :
     step s = .pure (popRule s) := Proofs.EvmStep.step_pop s hcode hwf.gas
 
